@@ -139,6 +139,101 @@ def canon_runs(sel, keyvals):
         out.append(sorted(sel[i:j]))
         i = j
     return out
+# ---- op `pair_tie`: "equal rational totals are always recognised as tied" on the pairwise-based evaluators -------------------------
+# A pairwise contest with EQUAL totals (w : w) is a tie whatever the common total w is.  For an evaluator that is a function of the
+# pairwise MAJORITIES (who beats whom, and by which winning total / margin) the relation
+#     outcome(d with the tied contests at (w, w)) == outcome(d with the same contests at (w', w'))    for all w, w' >= 0
+# must hold - in particular with w' = 0, and with both entries of the tied contests deleted from the dictionary.  Checked on the
+# unchanged tree (3000 random dictionaries of 3-5 candidates, w in {>= the largest genuine total, 0, 3, 11/2, 10^30}): it holds
+# EXACTLY (same list, same order) for rankedpairs_winvotes, rankedpairs_margins, copeland_2o, copeland_raw, schulze, kemeny_young
+# (a tied contest adds the same w to the score of every ranking), minimax_winvotes, minimax_margins, CondorcetWinner, SmithSet and
+# SchwartzSet.  It does NOT hold, by definition of the rule, for the pairwise-opposition variants (rankedpairs_pwo, minimax_pwo rank
+# by the raw opposing total, ties included) - these are not in PAIR_TIE_EVALUATORS.  The `deleted` variant changes the insertion
+# order of the dictionary (hence the order among equally placed individually listed winners): compared up to order, only when every
+# candidate still occurs in the dictionary, and not for ranked pairs (RankedPairs raises VotingSystemError on a dictionary that lacks a
+# contest - behaviour on incomplete dictionaries, not this property's subject).
+PAIR_TIE_EVALUATORS = ['rankedpairs_winvotes', 'rankedpairs_margins', 'copeland_2o', 'copeland_raw', 'schulze', 'kemeny_young',
+                       'minimax_winvotes', 'minimax_margins', 'winner', 'smith', 'schwartz']
+
+
+def _pt_num(s):
+    f = Fraction(s)
+    return int(f) if f.denominator == 1 else f
+
+
+def pair_tie_dict(case, w):
+    """the pairwise dictionary of a `pair_tie` case with every tied contest at (w, w); w = 'del': both entries left out.
+    Protocol form [[a, b, "count"], ...] in insertion order."""
+    out = []
+    for a, b, v in case['votes']:
+        if v is None:
+            if w == 'del':
+                continue
+            v = w
+        out.append([a, b, v])
+    return out
+
+
+def _pair_tie_run(case, w):
+    import votelib.evaluate.condorcet as vcon
+    name = case['name']
+    d = {(NAMES.n(a), NAMES.n(b)): _pt_num(v) for a, b, v in pair_tie_dict(case, w)}
+    if name in CONDORCET_SETS.values():
+        ev = {'winner': vcon.CondorcetWinner, 'smith': vcon.SmithSet, 'schwartz': vcon.SchwartzSet}[name]()
+        return guarded(lambda: enc_selection(ev.evaluate(d), NAMES), 10)
+    return guarded(lambda: enc_selection(vcon.EVALUATORS[name].evaluate(d, case['n']), NAMES), 10)
+
+
+def _unordered(o):
+    if isinstance(o, dict):
+        return o
+    return sorted(json.dumps(x, sort_keys=True) for x in canon(o))
+
+
+def gen_pair_tie(rng, tier):
+    """pairwise dictionaries (3-5 candidates, complete, shuffled insertion order) with one or more EXACTLY tied contests whose
+    common total is LARGE - at least the largest genuine winning total, up to 10^30 - next to genuine wins of small totals (what
+    truncated ballots produce: contests of different turnout); integer and Fraction totals; the alternatives the tied total is
+    replaced by: 0, a value below every winning total, another large one, and deletion of the entries"""
+    import itertools
+    per = 10 if tier == 'quick' else 150
+    for name in PAIR_TIE_EVALUATORS:
+        for t in range(per):
+            m = rng.randint(3, 4) if (name == 'kemeny_young' or t % 3) else 5
+            pairs = list(itertools.combinations(range(m), 2))
+            tied = set(rng.sample(pairs, rng.randint(1, len(pairs) - 1)))
+            frac = t % 3 == 1
+            den = rng.choice([2, 3, 7]) if frac else 1
+            vals, top = {}, Fraction(0)
+            for a, b in pairs:
+                if (a, b) in tied:
+                    vals[a, b] = vals[b, a] = None
+                else:
+                    x, y = rng.sample(range(0, 7 * den), 2)
+                    if t % 5 == 0:
+                        x, y = max(x, y), max(x, y) - 1 if max(x, y) > 0 else 1       # near ties next to the exact ones
+                    if rng.random() < 0.5:
+                        x, y = y, x
+                    vals[a, b], vals[b, a] = Fraction(x, den), Fraction(y, den)
+                    top = max(top, vals[a, b], vals[b, a])
+            order = [(a, b) for a, b in pairs] + [(b, a) for a, b in pairs]
+            rng.shuffle(order)
+            w = top + rng.choice([0, 0, Fraction(1, den), 1, 5, 10 ** 30, 10 ** 25 + 7])
+            alts = ['0', num_str(Fraction(rng.randint(0, 2), den)), num_str(w * 3 + 1)]
+            left = {c for p in order if vals[p] is not None for c in p}
+            tags = ['equal_rational', 'pair_tie', 'pair_tie_large_total']
+            if len(left) == m and not name.startswith('rankedpairs'):
+                alts.append('del')
+                tags.append('pair_tie_entries_deleted')
+            if frac:
+                tags.append('pair_tie_fraction_totals')
+            if w > 2 ** 53:
+                tags.append('beyond_2^53')
+            yield {'op': 'pair_tie', 'name': name, 'n': rng.randint(1, m),
+                   'votes': [[a, b, None if vals[a, b] is None else num_str(vals[a, b])] for a, b in order],
+                   'w': num_str(w), 'alts': alts, '_tags': tags + ['pt:' + name]}
+
+
 _FAMS = None
 
 
@@ -168,7 +263,9 @@ def _init_unproved():
 _init_unproved()
 NAME_MODES = ['str', 'int0', 'empty0', 'person', 'tuple']
 REQUIRED_COUNTERS = (['score_fraction_counts', 'score_large_factor', 'scale', 'near_tie', 'equal_rational', 'beyond_2^53', 'modelled', 'qd_options', 'qd_policy_subtract', 'qd_prev_gains', 'qd_caps', 'ha_options', 'ha_prev_gains', 'ha_caps', 'ha_prev_at_least_votes', 'equal_quotients_three_or_more', 'mj_all_share_the_median', 'mj_step_size_decides', 'irv_totals_around_2^63',
-                      'lr_equal_remainders', 'pure_total_below_one', 'approval_later_seat_level', 'threshold_boundary', 'coef_tie', 'coef_as_decimal', 'coef_as_float', 'exact_half_or_quota', 'odd_total_half', 'even_factor']
+                      'lr_equal_remainders', 'pure_total_below_one', 'approval_later_seat_level', 'threshold_boundary', 'coef_tie', 'coef_as_decimal', 'coef_as_float', 'exact_half_or_quota', 'odd_total_half', 'even_factor',
+                      'pair_tie', 'pair_tie_large_total', 'pair_tie_fraction_totals', 'pair_tie_entries_deleted']
+                     + ['pt:' + e for e in PAIR_TIE_EVALUATORS]
                      + ['m:' + f for f in PROVED_FAMILIES])      # every proved family is also run through its Lean model
 RULE = ('every scale-free evaluator family of the quantifier (plurality, divisor methods, largest remainder with exact quotas, '
         'Condorcet methods, STV-Gregory with Hare quota, Bucklin/Oklahoma, positional, approval, score, majority judgment, STAR, '
@@ -177,7 +274,11 @@ RULE = ('every scale-free evaluator family of the quantifier (plurality, divisor
         'remainders are equal as rationals but come from different whole-quota counts (and totals that are exact multiples of the '
         'quota), Bucklin/Oklahoma profiles with a first choice of exactly half of the voters and STV profiles with exactly the Hare '
         'quota, at factors 10^25+7, 2^70+1, 3*10^30+11; one-seat runs of Bucklin/Benham/Tideman; near-tie pairs (v,v+1) for v up to '
-        '10^30; equal rationals in different representations. Every proved family is also evaluated by its Lean model on the SCALED '
+        '10^30; equal rationals in different representations; op pair_tie: pairwise dictionaries (3-5 candidates, integer and Fraction totals) with '
+        'exactly tied contests of a LARGE common total (at least the largest genuine winning total, up to 10^30) next to genuine wins, '
+        'for every majority-based Condorcet evaluator (all of EVALUATORS but the pairwise-opposition variants, Condorcet winner, Smith, '
+        'Schwartz): the outcome must not depend on the common total of the tied contests (0, small, large, entries deleted), and the '
+        'Lean model evaluates the same dictionary. Every proved family is also evaluated by its Lean model on the SCALED '
         'profile and compared with the implementation. Non-trivial = the base outcome is not an error; distinct by canonical request.')
 NOT_VERIFIED = ['returned numeric TYPES (int/Fraction/Decimal, never float) are a runtime fact monitored by the harness, not a theorem',
                 'families listed under unproved are decided by the oracle on the implementation only',
@@ -543,6 +644,8 @@ def impl(case):
         votes, n = _equal_quotients(case)
         return guarded(lambda: enc_distribution(vp.HighestAverages(case['divisor']).evaluate(
             {NAMES.n(i): (int(v) if v.denominator == 1 else v) for i, v in votes}, n), NAMES))
+    if case['op'] == 'pair_tie':
+        return {'base': _pair_tie_run(case, case['w']), 'alts': [[w, _pair_tie_run(case, w)] for w in case['alts']]}
     if case['op'] == 'equal_rational':
         x, d = int(case['x']), case['d']
         nm = Names(['a', 'b'])
@@ -594,6 +697,17 @@ def oracle(case, obs):
         if got != exp:
             out.append(('equal_rationals_not_tied', f"{g} parties reach the same quotient {case['q']} for the last {case['r']} seat(s): expected "
                                                     f'{json.dumps(exp)}, got {json.dumps(got)}'))
+    elif case['op'] == 'pair_tie':
+        allc = {c for a, b, _ in case['votes'] for c in (a, b)}
+        for w, o in obs['alts']:
+            if w == 'del' and ({c for a, b, _ in pair_tie_dict(case, 'del') for c in (a, b)} != allc or case['name'].startswith('rankedpairs')):
+                continue        # the relation is claimed only while every candidate still occurs in the dictionary (see PAIR_TIE_EVALUATORS)
+            same = (_unordered(o) == _unordered(obs['base'])) if w == 'del' else (canon(o) == canon(obs['base']))
+            if not same:
+                out.append(('equal_totals_not_tied', f"{case['name']}, {case['n']} seat(s): the contests with equal totals ({case['w']} : {case['w']}) are ties, "
+                            f"yet the outcome {json.dumps(canon(obs['base']))} becomes {json.dumps(canon(o))} when their common total is "
+                            + ('removed (both entries deleted)' if w == 'del' else f'{w} : {w}')))
+                break
     elif case['op'] == 'equal_rational':
         if canon(obs) != [{'tie': [0, 1]}]:
             out.append(('equal_rationals_not_tied', str(obs)))
@@ -606,11 +720,13 @@ def signature(case, clause):
         if f.vtype == 'score' and any(Fraction(w).denominator != 1 for _, w in case['prof']):
             return f"scale:score_family:fraction_counts:{clause}"
         return f"scale:{case['family']}:{clause}"
+    if case['op'] == 'pair_tie':
+        return f"pair_tie:{case['name']}:{clause}"
     return f"{case['op']}:{clause}"
 
 
 def nontrivial(case, obs):
-    if case['op'] in ('scale', 'scale_qd', 'scale_ha'):
+    if case['op'] in ('scale', 'scale_qd', 'scale_ha', 'pair_tie'):
         return not (isinstance(obs['base'], dict) and 'err' in obs['base'])
     return True
 
@@ -689,6 +805,8 @@ def model_line(case):
             return {'op': f[:2], 'quota': f[3:], 'accept_equal': True, 'on_overaward': 'error', 'n': case['n'], 'votes': prof,
                     'prev': [], 'max': []}
         return None
+    if case['op'] == 'pair_tie':
+        return {'op': 'c11_pairwise', 'name': case['name'], 'votes': pair_tie_dict(case, case['w']), 'n': case['n']}
     if case['op'] == 'coef_tie':
         c, a, b = _coef_tie(case)
         return {'op': 'ha', 'divisor': 'd_hondt', 'first_coef': num_str(c), 'votes': [[0, str(a)], [1, str(b)]], 'n': 2,
@@ -707,7 +825,7 @@ def model_line(case):
 
 
 def compare(case, iobs, mobs):
-    got = iobs['scaled'] if case['op'] in ('scale', 'scale_qd', 'scale_ha') else iobs
+    got = iobs['scaled'] if case['op'] in ('scale', 'scale_qd', 'scale_ha') else iobs['base'] if case['op'] == 'pair_tie' else iobs
     if case['op'] == 'scale' and case['family'] in ('bucklin', 'oklahoma', 'bucklin_whole', 'oklahoma_whole', 'baldwin') and \
             any(isinstance(it, list) for b, _ in case['prof'] for it in b):
         # shared ranks: the model iterates them in protocol order, Python in frozenset order - the order among equally placed
@@ -756,7 +874,8 @@ _gen = generate
 
 
 def generate(rng, tier):    # noqa
-    for c in _gen(rng, tier):
+    import itertools
+    for c in itertools.chain(_gen(rng, tier), gen_pair_tie(rng, tier)):
         if model_line(c) is not None and c['op'] == 'scale':
             c['_tags'].append('modelled')
             c['_tags'].append('m:' + c['family'])
@@ -775,6 +894,11 @@ def describe(case):
         return (f"{cls}({case['quota']!r}, accept_equal={case['accept_equal']}, on_overaward={case['on_overaward']!r}).evaluate(profile, "
                 f"{case['n']}, prev_gains={dict(map(tuple, case['prev']))}, max_seats={dict(map(tuple, case['max']))}) vs the same on profile x "
                 f"{case['k']}; profile={case['prof']}")
+    if case['op'] == 'pair_tie':
+        ev = {'winner': 'CondorcetWinner()', 'smith': 'SmithSet()', 'schwartz': 'SchwartzSet()'}.get(case['name'], f"EVALUATORS[{case['name']!r}]")
+        d = {(NAMES.n(a), NAMES.n(b)): ('W' if v is None else v) for a, b, v in case['votes']}
+        return (f"votelib.evaluate.condorcet.{ev}.evaluate(d" + ('' if case['name'] in CONDORCET_SETS.values() else f", {case['n']}") +
+                f") with d = {d}: W = {case['w']} vs W in {case['alts']} ('del' = the W entries left out)")
     return json.dumps(strip_case(case))
 
 
@@ -784,6 +908,30 @@ def shrink_candidates(case):
             for i in range(len(case[key])):
                 c = dict(case)
                 c[key] = case[key][:i] + case[key][i+1:]
+                yield c
+        return
+    if case['op'] == 'pair_tie':
+        cs = sorted({c for a, b, _ in case['votes'] for c in (a, b)})
+        if len(cs) > 2:
+            for x in cs:
+                c = dict(case)
+                c['votes'] = [e for e in case['votes'] if x not in e[:2]]
+                c['n'] = min(case['n'], len(cs) - 1)
+                if any(e[2] is None for e in c['votes']):
+                    yield c
+        for i in range(len(case['alts'])):
+            if len(case['alts']) > 1:
+                c = dict(case)
+                c['alts'] = case['alts'][:i] + case['alts'][i+1:]
+                yield c
+        if case['n'] > 1:
+            c = dict(case)
+            c['n'] = case['n'] - 1
+            yield c
+        for big, small in (('w', '7'), ('w', '5')):
+            if Fraction(case['w']) > 7:
+                c = dict(case)
+                c['w'] = small
                 yield c
         return
     if case['op'] != 'scale':
